@@ -8,25 +8,31 @@ if '--tier' in args:
 props_override = None
 if '--props' in args:
     i = args.index('--props'); props_override = args[i + 1].split(','); del args[i:i + 2]
-names = args or sorted(os.listdir('/verif/seeded'))
+repo = '/repo'
+if '--repo' in args:   # a scratch copy / worktree of /repo (e.g. $VP_RUN_REPO): /repo itself is not touched
+    i = args.index('--repo'); repo = os.path.abspath(args[i + 1]); del args[i:i + 2]
+HERE = os.path.dirname(os.path.abspath(__file__))
+names = args or sorted(os.listdir(os.path.join(HERE, 'seeded')))
 def sh(c, **kw):
     return subprocess.run(c, shell=True, stdout=subprocess.PIPE, stderr=subprocess.STDOUT, text=True, **kw)
-assert sh('git -C /repo status --porcelain').stdout.strip() == '', 'repo not clean'
+def clean():
+    return sh('cd %s && git status --porcelain' % repo).stdout.strip() == ''
+assert clean(), 'repo not clean'
 for n in names:
-    d = os.path.join('/verif/seeded', n)
+    d = os.path.join(HERE, 'seeded', n)
     meta = json.load(open(os.path.join(d, 'meta.json')))
     props = props_override or [meta['breaks_property']]
-    r = sh('git -C /repo apply %s/patch.diff' % d)
+    r = sh('cd %s && git apply %s/patch.diff' % (repo, d))
     if r.returncode != 0:
         print(n, 'PATCH FAILED', r.stdout[-300:]); continue
     try:
         for p in props:
             t0 = time.time()
-            r = sh('cd /verif && ./check %s --tier %s' % (p, tier), timeout=7200)
+            r = sh('cd %s && VERIF_REPO=%s ./check %s --tier %s' % (HERE, repo, p, tier), timeout=7200)
             lines = [l for l in r.stdout.splitlines() if l.startswith('VIOLATION') or l.startswith('  formula') or 'INFRA' in l]
             print('%s check=%s rc=%d %.0fs %s' % (n, p, r.returncode, time.time() - t0, ' | '.join(lines[:4])), flush=True)
             if r.returncode == 2:
                 print(r.stdout[-1500:])
     finally:
-        sh('git -C /repo checkout -- .')
-assert sh('git -C /repo status --porcelain').stdout.strip() == ''
+        sh('cd %s && git checkout -- .%s' % (repo, ' && git clean -fdq' if repo != '/repo' else ''))
+assert clean()
